@@ -191,7 +191,7 @@ func rulesC04(c *Ctx) {
 			continue
 		}
 		for _, w := range p.FieldWrites(p.Field("objects.Allocation.allocated")) {
-			if w.Fn != fn {
+			if !p.inFn(w.Fn, fn) {
 				continue
 			}
 			st := p.StateAt(fn, w.Node)
